@@ -249,4 +249,15 @@ func init() {
 			{Pkg: "websocket", Func: "HarnessC14_Cut", TimeFixed: true, Labels: []string{"cut"}, Bound: "one message of 1-2 frames (1-3 + 0-2 symbolic bytes, 7/16-bit length form) cut at every offset inside it; whole and 1-byte reads"},
 		},
 	})
+	reg(&propSpec{
+		ID:          "C13",
+		Rule:        "Harnesses in harness/websocket/c13.go: a writer endpoint (role forked) sends through a forked API; the captured wire is parsed by an independent RFC 6455 frame parser and read back by a peer endpoint.",
+		Assumptions: wsAssume,
+		Harnesses: []harnessSpec{
+			{Pkg: "websocket", Func: "HarnessC13_RoundTrip", TimeFixed: true, Labels: []string{"roundtrip"},
+				Bound:  "client or server; APIs {WriteMessage, NextWriter+2 Writes with every split, WriteString, ReadFrom from readers with/without (n,EOF) and 1-2 byte chunks, prepared message}; one message of 0..6 symbolic bytes with write buffer 1/4/16; one message of 125/126/127 bytes (3 symbolic positions) with write buffer 16/4096; two messages of 0..2 bytes; mask key symbolic",
+				BoundT: "messages of 0..20 bytes; boundary sizes 125,126,127,4095,4096,4097,65535,65536; sessions of 2-3 messages"},
+			{Pkg: "websocket", Func: "HarnessC13_TruncWriter", Labels: []string{"truncwriter"}, Bound: "every input of 0..10 symbolic bytes split into 3 writes at every pair of offsets"},
+		},
+	})
 }
